@@ -88,7 +88,7 @@ package raft
 //@   ensures r.state == s
 
 //@ func (*Raft).setLeader
-//@   requires r.logger != nil
+//@   requires r.logger != nil && r.storage != nil
 //@   modifies r.leader
 //@   ensures r.leader == id
 
